@@ -25,7 +25,11 @@ BUILD = os.path.join(VERIF, "build")
 if os.path.realpath(REPO) != "/repo":
     # a scratch copy of the repository (sanity tests): keep its binaries apart
     BUILD = os.path.join(VERIF, "build", "alt_" + hashlib.sha1(os.path.realpath(REPO).encode()).hexdigest()[:8])
-EVID = os.path.join(VERIF, "evidence")
+# evidence and replays of runs against a scratch repository never overwrite the real ones
+if os.path.realpath(REPO) == "/repo":
+    EVID = os.path.join(VERIF, "evidence")
+else:
+    EVID = os.path.join(BUILD, "evidence")
 REPLAYS = os.path.join(EVID, "replays")
 
 GOENV = dict(os.environ, GOFLAGS="-mod=mod", GOPROXY="off", GOSUMDB="off", GOTOOLCHAIN="local",
